@@ -521,3 +521,196 @@ def unfold_generator_loops(fn, view, project, depth=2):
     node.body = rewrite(node.body, 0)
     ast.fix_missing_locations(node)
     return node
+
+
+# ---------------------------------------------------------------------- calls the normaliser leaves: methods of another object, local closures
+def _inline_body(callee_node, binding, suffix, keep=()):
+    """(pre, body, ret): the callee's statements with its own names set apart (suffix), the parameters bound to the argument
+    expressions, `return` turned into assignments to `ret`.  Raises normalize._CannotInline for shapes that cannot be
+    laid out in place (return inside a loop / try, generators, nested scopes writing outwards)."""
+    from ..normalize import _CannotInline
+
+    if any(isinstance(x, (ast.Yield, ast.YieldFrom, ast.Global, ast.Nonlocal, ast.Lambda, ast.AsyncFunctionDef)) for x in ast.walk(callee_node)) or any(
+            isinstance(x, ast.FunctionDef) for x in ast.walk(callee_node) if x is not callee_node):
+        raise _CannotInline("scopes")
+    a = callee_node.args
+    if a.vararg or a.kwarg:
+        raise _CannotInline("*args")
+    body = copy.deepcopy([s for s in callee_node.body if not (isinstance(s, ast.Expr) and isinstance(s.value, ast.Constant) and isinstance(s.value.value, str))])
+    ren = {}
+    for nm in _bound(callee_node):
+        if nm in keep or (nm in binding and isinstance(binding[nm], ast.Name) and binding[nm].id == nm):
+            continue
+        if nm in binding and isinstance(binding[nm], ast.Name):
+            ren[nm] = binding[nm].id  # a parameter that IS a variable of the caller: the same name (no binding needed)
+        else:
+            ren[nm] = f"{nm}{suffix}"
+    body = [rename(s, ren) for s in body]
+    pre = [ast.Assign(targets=[ast.Name(id=ren[p], ctx=ast.Store())], value=copy.deepcopy(v)) for p, v in binding.items()
+           if p in ren and not isinstance(v, ast.Name)]
+    # a parameter renamed to a caller's variable must not be re-bound inside the callee (it would re-bind the caller's)
+    for p, v in binding.items():
+        if isinstance(v, ast.Name) and p in ren and any(isinstance(x, ast.Name) and x.id == ren[p] and isinstance(x.ctx, (ast.Store, ast.Del)) for s in body for x in ast.walk(s)):
+            raise _CannotInline("parameter re-bound")
+    ret = f"_ret{suffix}"
+    stmts = _tail_returns(body, ret)
+    init = ast.Assign(targets=[ast.Name(id=ret, ctx=ast.Store())], value=ast.Constant(value=None))
+    return pre + [init], stmts, ret
+
+
+def _tail_returns(stmts, ret, _budget=None):
+    """Single-exit form of a function body: `return v` -> `ret = v`; the statements that follow an `if` holding a return are
+    carried into both of its branches (so every return ends its path and nothing needs a flag).  Returns inside loops,
+    try / with blocks are not laid out (normalize._CannotInline)."""
+    from ..normalize import _CannotInline
+
+    budget = _budget if _budget is not None else [400]
+    out = []
+    for i, s in enumerate(stmts):
+        budget[0] -= 1
+        if budget[0] < 0:
+            raise _CannotInline("too many paths")
+        if isinstance(s, ast.Return):
+            out.append(ast.copy_location(ast.Assign(targets=[ast.Name(id=ret, ctx=ast.Store())], value=s.value if s.value is not None else ast.Constant(value=None)), s))
+            return out
+        if isinstance(s, ast.Raise):
+            out.append(s)
+            return out
+        has_return = any(isinstance(x, ast.Return) for x in ast.walk(s))
+        if isinstance(s, ast.If) and has_return:
+            rest = stmts[i + 1:]
+            new = ast.If(test=s.test, body=_tail_returns(s.body + copy.deepcopy(rest), ret, budget) or [ast.Pass()],
+                         orelse=_tail_returns(s.orelse + copy.deepcopy(rest), ret, budget))
+            out.append(ast.copy_location(new, s))
+            return out
+        if has_return:
+            raise _CannotInline(f"return inside {type(s).__name__}")
+        out.append(s)
+    return out
+
+
+def _bind_args(callee_node, call, first=None):
+    a = callee_node.args
+    params = [x.arg for x in a.posonlyargs + a.args]
+    defaults = dict(zip(params[len(params) - len(a.defaults):], a.defaults))
+    for k, d in zip(a.kwonlyargs, a.kw_defaults):
+        params.append(k.arg)
+        if d is not None:
+            defaults[k.arg] = d
+    if any(isinstance(x, ast.Starred) for x in call.args) or any(k.arg is None for k in call.keywords):
+        return None
+    args = ([first] if first is not None else []) + list(call.args)
+    if len(args) > len(a.posonlyargs + a.args):
+        return None
+    binding = dict(zip(params, args))
+    for k in call.keywords:
+        if k.arg not in params or k.arg in binding:
+            return None
+        binding[k.arg] = k.value
+    for prm in params:
+        if prm not in binding:
+            if prm not in defaults:
+                return None
+            binding[prm] = defaults[prm]
+    return binding
+
+
+def expand_statement_calls(fn_node, resolve, tag):
+    """A copy of the function where the statements `f(..)`, `x = f(..)`, `return f(..)` whose call `resolve(call)` maps to
+    (callee function node, receiver expression | None) read as the callee's body laid out in place."""
+    from ..normalize import _CannotInline
+
+    node = copy.deepcopy(fn_node)
+    counter = [0]
+
+    def rewrite(stmts):
+        out = []
+        for s in stmts:
+            for fld in ("body", "orelse", "finalbody"):
+                blk = getattr(s, fld, None)
+                if isinstance(blk, list) and blk and isinstance(blk[0], ast.stmt) and not isinstance(s, (ast.FunctionDef, ast.AsyncFunctionDef, ast.ClassDef)):
+                    setattr(s, fld, rewrite(blk))
+            for h in getattr(s, "handlers", None) or []:
+                h.body = rewrite(h.body)
+            call = s.value if isinstance(s, (ast.Expr, ast.Assign, ast.Return)) and isinstance(getattr(s, "value", None), ast.Call) else None
+            target = resolve(call) if call is not None else None
+            if target is None:
+                out.append(s)
+                continue
+            callee, recv = target
+            binding = _bind_args(callee, call, first=recv)
+            if binding is None:
+                out.append(s)
+                continue
+            counter[0] += 1
+            try:
+                pre, body, ret = _inline_body(callee, binding, f"__{tag}{counter[0]}")
+            except _CannotInline:
+                out.append(s)
+                continue
+            new = pre + body
+            if isinstance(s, ast.Expr):
+                pass
+            else:
+                s.value = ast.Name(id=ret, ctx=ast.Load())
+                new.append(s)
+            for x in new:
+                for y in ast.walk(x):
+                    if isinstance(y, (ast.expr, ast.stmt)) and y is not s:
+                        ast.copy_location(y, call)
+            out += rewrite(new) if counter[0] < 12 else new
+        return out
+
+    node.body = rewrite(node.body)
+    ast.fix_missing_locations(node)
+    return node
+
+
+def expand_member_calls(fn, view, project, receivers, base):
+    """`<receiver>.m(..)` statements, the receiver being one of the named locals (e.g. the loop variable over the children) and
+    m a method that class `base` and its subclasses implement ONCE (no override: whatever the receiver's class, that body
+    runs): read as m's normalised body with self := the receiver."""
+    subs = project.subclasses(base)
+
+    def resolve(call):
+        f = call.func
+        if not (isinstance(f, ast.Attribute) and isinstance(f.value, ast.Name) and f.value.id in receivers):
+            return None
+        impls = {id(c.methods[f.attr].node): c.methods[f.attr] for c in subs if f.attr in c.methods}
+        if len(impls) != 1:
+            return None
+        m = next(iter(impls.values()))
+        if m.kind != "method" or m.node.decorator_list:
+            return None
+        return view(m).node, f.value
+
+    return expand_statement_calls(fn.node, resolve, "m")
+
+
+def inline_local_closures(fn_node):
+    """Calls of a function defined inside `fn_node` (a local closure, defined once, possibly reached through a single-assignment
+    alias such as a helper's parameter it was passed as) read as the closure's body in place: it reads the enclosing
+    variables at call time, exactly what the statements in place do."""
+    single = single_assignments(fn_node)
+    defs = {}
+    for x in ast.walk(fn_node):
+        if isinstance(x, ast.FunctionDef) and x is not fn_node:
+            defs.setdefault(x.name, []).append(x)
+    stores = {}
+    for x in ast.walk(fn_node):
+        if isinstance(x, ast.Name) and isinstance(x.ctx, ast.Store):
+            stores[x.id] = stores.get(x.id, 0) + 1
+    local = {nm: d[0] for nm, d in defs.items() if len(d) == 1 and not stores.get(nm) and not d[0].decorator_list}
+    if not local:
+        return fn_node
+
+    def resolve(call):
+        f = call.func
+        for _ in range(4):
+            if isinstance(f, ast.Name) and f.id in single and isinstance(single[f.id], ast.Name):
+                f = single[f.id]
+        if isinstance(f, ast.Name) and f.id in local:
+            return local[f.id], None
+        return None
+
+    return expand_statement_calls(fn_node, resolve, "c")
